@@ -104,6 +104,7 @@ func conctraceMain(args []string) int {
 	maxExt := fs.Int("maxext", 10, "extensions per run")
 	seed := fs.Int64("seed", 1, "seed")
 	notrace := fs.Bool("notrace", false, "install no hook (race-detector stress)")
+	burst := fs.Bool("burst", false, "every goroutine starts with an Extend on the same parent, released together")
 	report := fs.String("out", "", "report path")
 	fs.Parse(args)
 
@@ -133,6 +134,9 @@ func conctraceMain(args []string) int {
 		published := []string{"root", "bin", "binc", "txt", "tj"} // attach points known to be in the tree
 		owners := []*aliasOwner{}
 		var wg sync.WaitGroup
+		var startGate sync.WaitGroup
+		startGate.Add(1)
+		burstParent := []string{"root", "txt", "bin", "tj"}[run%4]
 		for gi := 0; gi < *gor; gi++ {
 			wg.Add(1)
 			go func(gi int) {
@@ -143,8 +147,36 @@ func conctraceMain(args []string) int {
 				lg.mu.Unlock()
 				rng := rand.New(rand.NewSource(*seed*100003 + int64(run)*1009 + int64(gi)))
 				xs := []string{"x1", "x2", "x3"}
+				doLookup := func(name string) {
+					extMu.Lock()
+					ownersNow := append([]*aliasOwner(nil), owners...)
+					extMu.Unlock()
+					lg.add(concEvent{"ev": "lookup.enter", "g": g, "name": name})
+					res := mimetype.Lookup(m.realName(name))
+					found, fp := "none", "none"
+					if res != nil {
+						found = realToID(res.String())
+						if res.Parent() != nil {
+							fp = realToID(res.Parent().String())
+						}
+						_ = res.Is(m.realName(name))
+					}
+					intact := true
+					for _, o := range ownersNow {
+						if !o.intact() {
+							intact = false
+						}
+					}
+					lg.add(concEvent{"ev": "lookup.ret", "g": g, "found": found, "fp": fp, "backing_unchanged": intact})
+				}
+				startGate.Wait()
 				for k := 0; k < *opsN; k++ {
-					switch c := rng.Intn(20); {
+					c := rng.Intn(20)
+					forceParent := ""
+					if *burst && k == 0 {
+						c, forceParent = 12, burstParent
+					}
+					switch {
 					case c < 9: // detect through a random entry point
 						x := xs[rng.Intn(3)]
 						in := exact(m.inputs[x])
@@ -193,6 +225,9 @@ func conctraceMain(args []string) int {
 						extCount++
 						e := fmt.Sprintf("e%d", extCount)
 						p := published[rng.Intn(len(published))]
+						if forceParent != "" {
+							p = forceParent
+						}
 						parent := m.node[p]
 						extMu.Unlock()
 						var acc []string
@@ -237,30 +272,21 @@ func conctraceMain(args []string) int {
 					default:
 						extMu.Lock()
 						names := append([]string{"missing", "al1", "al2"}, published...)
-						ownersNow := append([]*aliasOwner(nil), owners...)
 						extMu.Unlock()
-						name := names[rng.Intn(len(names))]
-						lg.add(concEvent{"ev": "lookup.enter", "g": g, "name": name})
-						res := mimetype.Lookup(m.realName(name))
-						found, fp := "none", "none"
-						if res != nil {
-							found = realToID(res.String())
-							if res.Parent() != nil {
-								fp = realToID(res.Parent().String())
-							}
-							_ = res.Is(m.realName(name))
-						}
-						intact := true
-						for _, o := range ownersNow {
-							if !o.intact() {
-								intact = false
-							}
-						}
-						lg.add(concEvent{"ev": "lookup.ret", "g": g, "found": found, "fp": fp, "backing_unchanged": intact})
+						doLookup(names[rng.Intn(len(names))])
+					}
+				}
+				if *burst { // every extension registered so far must be found
+					extMu.Lock()
+					names := append([]string(nil), published[5:]...)
+					extMu.Unlock()
+					for _, nm := range names {
+						doLookup(nm)
 					}
 				}
 			}(gi)
 		}
+		startGate.Done()
 		wg.Wait()
 		mimetype.VerifHook = nil
 		totalOps += int64(*gor * *opsN)
